@@ -356,6 +356,8 @@ static long n_states, n_trans, n_paths, n_exec, next_sid; static int aborted;
 static char* CURPATH; // shared page: the prefix being executed, so that the parent can name the schedule of a crash
 static std::string path_str(const Path& p) { std::string s; for (auto& [a, k] : p) { if (!s.empty()) s += ";"; s += std::to_string(a); if (k) s += "/" + std::to_string(k); } return s; }
 struct Work { Path prefix; long from; };
+struct PairTask { Path prefix; std::pair<long, int> a, b; };
+static std::vector<PairTask> pair_tasks; static bool collect_pairs = false;
 
 static std::string enabled_str(const std::vector<En>& en)
 { std::string es = "|E:"; if (assertion_failed) return es; /* a failed assertion ends the execution */ for (size_t i = 0; i < en.size(); i++) es += (i ? "," : "") + std::to_string(en[i].a->get_pid()) + "/" + std::to_string(en[i].maxc); return es; }
@@ -398,6 +400,8 @@ static void explore_program(const Program& p, char* argv0)
       if (en.empty() || assertion_failed) { n_paths++; break; }
       std::vector<std::pair<kernel::actor::ActorImpl*, int>> ch;
       for (auto& e : en) for (int k = 0; k < e.maxc; k++) ch.push_back({e.a, k});
+      if (collect_pairs) for (size_t i = 0; i < ch.size(); i++) for (size_t j = i + 1; j < ch.size(); j++) if (ch[i].first != ch[j].first)
+          pair_tasks.push_back({cur, {ch[i].first->get_pid(), ch[i].second}, {ch[j].first->get_pid(), ch[j].second}});
       for (size_t i = ch.size(); i-- > 1;) { Work nw; nw.prefix = cur; nw.prefix.push_back({ch[i].first->get_pid(), ch[i].second}); nw.from = sid; stack.push_back(std::move(nw)); }
       from = sid; lab = {ch[0].first->get_pid(), ch[0].second};
       cur.push_back(lab); strncpy(CURPATH, path_str(cur).c_str(), 4000);
@@ -490,6 +494,46 @@ static void classes_program(const Program& p, char* argv0, long maxexec, FILE* f
   for (auto& c : classes) fprintf(fo, "K %zx\n", std::hash<std::string>{}(c));
 }
 
+// ------------------------------------------------------------------------------------------------ commutation of independent pairs (C39)
+struct PairRun { bool ok = false, second_enabled = false; mc::TransitionPtr t1, t2; std::string fp; };
+static PairRun run_pair(const Program& p, char* argv0, const Path& prefix, std::pair<long, int> x, std::pair<long, int> y)
+{
+  PairRun r; char logopt[] = "--log=root.thres:critical"; int ac = 2; char* av[] = {argv0, logopt, nullptr};
+  setup(p, &ac, av); quiesce();
+  auto find = [](std::pair<long, int> c) -> kernel::actor::ActorImpl* { for (auto& e : enabled_list()) if (e.a->get_pid() == c.first && c.second < e.maxc) return e.a; return nullptr; };
+  for (auto& st : prefix) { auto* a = find(st); if (!a) { teardown(); return r; } handle(a, st.second); quiesce(); }
+  auto* ax = find(x); if (!ax || !find(y)) { teardown(); return r; }
+  r.ok = true;
+  handle(ax, x.second); r.t1 = transition_obj(ax); quiesce();
+  auto* ay = find(y);
+  if (ay) { r.second_enabled = true; handle(ay, y.second); r.t2 = transition_obj(ay); quiesce(); auto en = enabled_list(); r.fp = canonical() + hidden() + enabled_str(en); }
+  teardown();
+  return r;
+}
+static void pairs_program(const Program& p, char* argv0, FILE* fo)
+{
+  collect_pairs = true; pair_tasks.clear();
+  explore_program(p, argv0);   // stateful walk; every new state queues its co-enabled pairs
+  collect_pairs = false;
+  long indep = 0, dep = 0, bad = 0, asym = 0; std::map<std::string, long> cells;
+  for (auto& t : pair_tasks) {
+    PairRun ab = run_pair(p, argv0, t.prefix, t.a, t.b), ba = run_pair(p, argv0, t.prefix, t.b, t.a);
+    if (!ab.ok || !ba.ok) { fprintf(fo, "X pair-replay-failed %s\n", path_str(t.prefix).c_str()); continue; }
+    bool d1 = ab.t1->dispatch_depends(ba.t1.get()), d2 = ba.t1->dispatch_depends(ab.t1.get());
+    std::string ta = mc::Transition::to_c_str(ab.t1->type_), tb = mc::Transition::to_c_str(ba.t1->type_);
+    if (d1 != d2) { asym++; fprintf(fo, "V asymmetric|%s|%ld/%d|%ld/%d|%s|%s|depends(a,b)=%d depends(b,a)=%d\n", path_str(t.prefix).c_str(), t.a.first, t.a.second, t.b.first, t.b.second, ab.t1->to_string(false).c_str(), ba.t1->to_string(false).c_str(), d1, d2); }
+    std::string cell = (ta < tb ? ta + "/" + tb : tb + "/" + ta) + (d1 ? ":dep" : ":indep"); cells[cell]++;
+    if (d1 || d2) { dep++; continue; }
+    indep++;
+    const char* what = nullptr;
+    if (!ab.second_enabled) what = "b is disabled by a"; else if (!ba.second_enabled) what = "a is disabled by b"; else if (ab.fp != ba.fp) what = "a.b and b.a lead to different states";
+    if (what && getenv("VX_PAIRS_VERBOSE")) fprintf(fo, "D ab %s\nD ba %s\n", ab.fp.c_str(), ba.fp.c_str());
+    if (what) { bad++; fprintf(fo, "V not-commuting|%s|%ld/%d|%ld/%d|%s|%s|%s\n", path_str(t.prefix).c_str(), t.a.first, t.a.second, t.b.first, t.b.second, ab.t1->to_string(false).c_str(), ba.t1->to_string(false).c_str(), what); }
+  }
+  fprintf(fo, "I %ld %ld %ld %ld %zu\n", indep, dep, bad, asym, pair_tasks.size());
+  for (auto& [c, n] : cells) fprintf(fo, "L %s %ld\n", c.c_str(), n);
+}
+
 extern "C" const char* simgrid_verif_fingerprint(void)
 { // H1 hook (AppSide) calls this through dlsym to log the application-level state under simgrid-mc
   static std::string s; s = canonical(); return s.c_str();
@@ -551,7 +595,7 @@ int main(int argc, char** argv)
     }
     _exit(0);
   }
-  bool classes_mode = mode == "classes";
+  bool classes_mode = mode == "classes", pairs_mode = mode == "pairs";
   // explore
   const char* out = argv[3];
   if (argc > 4) stateful = std::string(argv[4]) != "stateless";
@@ -573,7 +617,8 @@ int main(int argc, char** argv)
         if (deadline > 0 && (double)time(nullptr) > deadline) { fprintf(fo, "R 0 0 0 SKIP\n"); continue; }
         seen.clear(); n_states = n_trans = n_paths = n_exec = next_sid = 0; aborted = 0;
         if (classes_mode) { classes_program(progs[i], argv[0], maxstates, fo); fprintf(fo, "R 0 0 0 OK 0\n"); fflush(fo); continue; }
-        explore_program(progs[i], argv[0]);
+        if (pairs_mode) { FILE* keep = OUT; OUT = fopen("/dev/null", "w"); pairs_program(progs[i], argv[0], fo); fclose(OUT); OUT = keep; }
+        else explore_program(progs[i], argv[0]);
         fprintf(fo, "R %ld %ld %ld %s %ld\n", n_paths, n_states, n_trans, aborted ? ("ABORT" + std::to_string(aborted)).c_str() : "OK", n_exec);
         fflush(fo);
       }
